@@ -72,7 +72,7 @@ def main():
          "engines": [{"name": "coq-model+correspondence", "path": "/verif/check", "serves_properties": [c["property_id"] for c in checks],
                       "kind_free_text": "Coq 8.16.1 development under coq/ (model, lemmas, Properties/Cxx.v), extracted OCaml driver, Go harness, python comparator/oracles"}],
          "checks": checks, "not_applicable": na,
-         "notes": "Machine-checked proof in Coq of an executable Gallina model tied to /repo by a correspondence check; see DESIGN.md. /repo carries 14 'fix:' commits (known_findings.json lists them and the two recorded findings)."}
+         "notes": "Machine-checked proof in Coq of an executable Gallina model tied to /repo by a correspondence check; see DESIGN.md. /repo carries 15 'fix:' commits (known_findings.json lists them and the two recorded findings)."}
     json.dump(m, open(os.path.join(ROOT, "MANIFEST.json"), "w"), indent=1)
     print(len(checks), "claimed;", len(na), "pending")
 main()
